@@ -382,17 +382,19 @@ structure Raised where
   cls : ErrClass            -- class after `if isinstance(e, (BaseSSLError, CertificateError)): new_e = SSLError(e)`
   wrappable : Bool          -- isinstance(new_e, (OSError, NewConnectionError, TimeoutError, SSLError, HTTPException))
   osOrHttp : Bool           -- isinstance(new_e, (OSError, HTTPException))
-  /-- `conn.has_connected_to_proxy` is `False` when the handler runs: the socket was never opened,
-  or `http.client.HTTPConnection.getresponse` ran `except ConnectionError: self.close()` and
-  urllib3's `HTTPConnection.close()` reset `_has_connected_to_proxy` -/
+  /-- `conn.has_connected_to_proxy` is `False` when the handler runs: the socket was never opened.
+  (`http.client.HTTPConnection.getresponse` runs `except ConnectionError: self.close()` and
+  urllib3's `HTTPConnection.close()` resets `_has_connected_to_proxy`, but
+  `urllib3.connection.HTTPConnection.getresponse` restores the flag before re-raising: a reset /
+  EOF while waiting for the response leaves it set.) -/
   proxyFlagClear : Bool
 
 def raised : Outcome → Raised
   | .connectError .timeout => ⟨.connectTimeout, true, false, true⟩
   | .connectError .refused => ⟨.newConnection, true, false, true⟩
   | .readError .timeout => ⟨.readTimeout, true, false, false⟩
-  | .readError .reset => ⟨.connectionReset, true, true, true⟩
-  | .readError .eof => ⟨.remoteDisconnected, true, true, true⟩
+  | .readError .reset => ⟨.connectionReset, true, true, false⟩
+  | .readError .eof => ⟨.remoteDisconnected, true, true, false⟩
   | .readError .garbage => ⟨.badStatusLine, true, true, false⟩
   | .otherError => ⟨.ssl, true, false, false⟩
   | .response _ _ => ⟨.protocol, false, false, false⟩      -- not an error; never consulted
